@@ -5,12 +5,12 @@ Import ListNotations.
 
 (* ref here is the harness' Fraction evaluation of what the implementation computes (ints seen through float()
    in a MixedColumn); it must equal the L1 model's rational *)
-Definition mstat_agrees (k : kind) (s : stat) (cells : list val) (ref : claim) (impl : fl) (exact : bool) : bool :=
-  match l1_stat k s cells with
+Definition mstat_agrees (k : kind) (s : stat) (cells : list xcell) (ref : claim) (impl : fl) (md : mode) : bool :=
+  match xl1_stat k s cells with
   | MOut => true
   | MNan => fl_is_nan impl && match ref with CNan => true | _ => false end
   | MVal q => match ref with CVal r => Qceqb r q | CNan => false end
-              && fl_is_finite impl && (if exact then exact_ok s q impl else true)
+              && fl_is_finite impl && mode_ok md s q impl
   end.
 
 Fixpoint klist_eqb (a b : list key) : bool :=
@@ -19,15 +19,20 @@ Fixpoint klist_eqb (a b : list key) : bool :=
   | x :: a', y :: b' => key_eqb x y && klist_eqb a' b'
   | _, _ => false
   end.
-Definition unique_agrees (k : kind) (cells u : list val) : bool :=
-  match l1_unique k cells with
-  | UOrdered l => klist_eqb l (keys u)
-  | UAnyOrder l => knodup (keys u) && forallb (fun x => kmem x l) (keys u) && forallb (fun x => kmem x (keys u)) l
+Definition unique_agrees (k : kind) (cells u : list xcell) : bool :=
+  match xl1_unique k cells with
+  | UOrdered l => klist_eqb l (xkeys u)
+  | UAnyOrder l => knodup (xkeys u) && forallb (fun x => kmem x l) (xkeys u) && forallb (fun x => kmem x (xkeys u)) l
   end.
 
-Definition leaves_model (k : kind) (cells : list val) : bool :=
-  match l1_stat k Mean cells with MOut => true | _ => false end.
+Definition leaves_model (k : kind) (cells : list xcell) : bool :=
+  match xl1_stat k Mean cells with MOut => true | _ => false end.
 
-Definition model_agrees (k : kind) (cells : list val) (obs : list ob) (u : list val) (cnt : Z) : bool :=
+Definition model_agrees (k : kind) (cells : list xcell) (obs : list ob) (u : list xcell) (cnt : Z) : bool :=
   forallb (fun o : ob => let '(s, r, x, e) := o in mstat_agrees k s cells r x e) obs
-  && unique_agrees k cells u && (cnt =? l1_count k cells u)%Z.
+  && unique_agrees k cells u && (cnt =? xl1_count k cells u)%Z.
+(* every reading with the column type the column had at that time *)
+Definition model_seq (rs : list (kind * reading)) : bool :=
+  forallb (fun kr : kind * reading => let '(k, (cells, obs, u, cnt)) := kr in model_agrees k cells obs u cnt) rs.
+Definition in_scope_seq (rs : list reading) : bool :=
+  forallb (fun r : reading => let '(cells, _, _, _) := r in xin_scope cells) rs.
